@@ -2,8 +2,11 @@
 redefinitions, collectable functions) and the registry that names real objects with the small integers
 used by spec/ConvCache.tla (code ids, env ids, option ids).
 
-Nothing here decides anything: the registry only *names* what it sees (identity of code objects, identity
-of globals, values of closure cells and defaults) so that TLC can compare.
+Nothing here decides anything: the registry only *names* what it sees (identity of code objects and their
+addresses, identity of globals, identity of closure cells and - separately - what the cells hold, values of
+defaults) so that TLC can compare.  An environment is an identity: two closures over distinct cells are two
+environments, whatever the cells hold (spec/ConvCache.tla: cellval); a code object is an identity as well, its
+address (id()) is only an attribute that a later code object can inherit (spec/ConvCache.tla: addr).
 """
 import os
 import sys
@@ -120,6 +123,10 @@ class Registry:
         self.expected_fail = set()   # code ids of pool functions whose conversion is meant to fail (no source)
         self._codes = {}       # id(code) -> (weakref, cid)
         self._next_code = 1
+        self._addrs = {}       # id(code) -> small integer naming that address
+        self.superseded = []   # code ids found dead when their address was taken over by a new code object
+        self._vals = {}        # repr of the contents of a closure -> small integer
+        self._cells = []       # the cells named in env keys stay alive (id stability)
         self._envs = {}        # env key -> eid
         self._next_env = 1
         self._opts = {}        # (recursive, user_requested, internal_convert_user_code, features) -> oid
@@ -138,6 +145,8 @@ class Registry:
             return ent[1]
         if not create or not isinstance(code, types.CodeType):
             return 0
+        if ent is not None:
+            self.superseded.append(ent[1])      # the previous tenant of this address is dead
         cid = self._next_code
         self._next_code += 1
         self._codes[id(code)] = (weakref.ref(code), cid)
@@ -147,26 +156,60 @@ class Registry:
         self._codes[id(code)] = (weakref.ref(code), cid)
         self._next_code = max(self._next_code, cid + 1)
 
+    def addr_id(self, code):
+        """A small integer naming the address of a code object (equal addresses <=> equal names)."""
+        with self._lock:
+            a = self._addrs.get(id(code))
+            if a is None:
+                a = self._addrs[id(code)] = len(self._addrs) + 1
+            return a
+
+    def n_addrs(self):
+        return len(self._addrs)
+
     def code_alive(self, cid):
         return any(ref() is not None for ref, c in self._codes.values() if c == cid)
 
     def n_codes(self):
         return self._next_code - 1
 
-    # -- environments: (globals identity, closure values of the requested code's free variables, defaults)
+    # -- environments: (globals identity, identity of the cells of the requested code's free variables, defaults)
     @staticmethod
-    def env_key(fn, freevars):
-        code = fn.__code__
-        cells = dict(zip(code.co_freevars, fn.__closure__ or ()))
-        vals = []
-        for nm in freevars:
-            c = cells.get(nm)
-            try:
-                vals.append((nm, repr(c.cell_contents)) if c is not None else (nm, '<missing>'))
-            except ValueError:
-                vals.append((nm, '<empty>'))
+    def _cells_of(fn, freevars):
+        cells = dict(zip(fn.__code__.co_freevars, fn.__closure__ or ()))
+        return [(nm, cells.get(nm)) for nm in freevars]
+
+    @classmethod
+    def env_key(cls, fn, freevars):
+        cells = tuple((nm, id(c) if c is not None else 0) for nm, c in cls._cells_of(fn, freevars))
         kwd = getattr(fn, '__kwdefaults__', None) or {}
-        return (id(fn.__globals__), tuple(vals), repr(fn.__defaults__ or ()), repr(sorted(kwd.items())))
+        return (id(fn.__globals__), cells, repr(fn.__defaults__ or ()), repr(sorted(kwd.items())))
+
+    @staticmethod
+    def contents(fn, freevars=None):
+        """What the cells of fn's free variables hold right now (a tuple of reprs)."""
+        out = []
+        for nm, c in Registry._cells_of(fn, fn.__code__.co_freevars if freevars is None else freevars):
+            try:
+                out.append(repr(c.cell_contents) if c is not None else '<missing>')
+            except ValueError:
+                out.append('<empty>')
+        return tuple(out)
+
+    def val_name(self, contents):
+        """A small integer naming the contents of a closure (equal contents <=> equal names)."""
+        key = tuple(contents)
+        with self._lock:
+            v = self._vals.get(key)
+            if v is None:
+                v = self._vals[key] = len(self._vals) + 1
+            return v
+
+    def val_id(self, fn):
+        return self.val_name(self.contents(fn))
+
+    def n_vals(self):
+        return len(self._vals)
 
     def env_id(self, fn, create=True):
         key = self.env_key(fn, fn.__code__.co_freevars)
@@ -180,6 +223,7 @@ class Registry:
             self._next_env += 1
             self._envs[key] = eid
             self._keep.append(fn.__globals__)
+            self._cells.append(fn.__closure__)
         return eid or 0
 
     def set_env(self, fn, eid):
@@ -189,6 +233,7 @@ class Registry:
             raise common.MachineryError('C10 pool: two environment ids for one environment (%r)' % (key,))
         self._envs[key] = eid
         self._keep.append(fn.__globals__)
+        self._cells.append(fn.__closure__)
         self._next_env = max(self._next_env, eid + 1)
 
     def env_of_result(self, result_fn, requested_fn):
